@@ -6,7 +6,7 @@ use a5::core::serialization::serialize;
 use a5::core::utils::A5Cell;
 use serde_json::{json, Value};
 
-fn compact_call(cells: &[u64]) -> (bool, Vec<u64>) {
+pub fn compact_call(cells: &[u64]) -> (bool, Vec<u64>) {
     match catch(|| a5::compact(cells)) {
         Ok(Ok(v)) => (true, v),
         _ => (false, vec![]),
@@ -65,13 +65,13 @@ fn compact8_event(set: &[u64], rng: &mut Rng, nvariants: usize, expand_cap: u64)
            "has_expand": has_expand, "exp_ok": exp_ok, "exp_in": quads_list(&exp_in), "exp_out": quads_list(&exp_out)})
 }
 
-fn compact10_event(cells: &[u64]) -> Value {
+pub fn compact10_event(cells: &[u64]) -> Value {
     let (ok, out) = compact_call(cells);
     let (ok2, again) = compact_call(&out);
     json!({"op": "compact10", "cells": quads_list(cells), "ok": ok, "out": quads_list(&out), "ok2": ok2, "again": quads_list(&again)})
 }
 
-fn compactpair_event(a: &[u64], b: &[u64]) -> Value {
+pub fn compactpair_event(a: &[u64], b: &[u64]) -> Value {
     let (ok_a, out_a) = compact_call(a);
     let (ok_b, out_b) = compact_call(b);
     json!({"op": "compactpair", "a": quads_list(a), "b": quads_list(b), "ok": ok_a && ok_b,
